@@ -73,6 +73,11 @@ def gen_broker_case(rng, stream='valid', n_ops=None, exact=False, fee=None, npf=
     pfcash = {}          # pid -> Fraction (transfer-only view) or None once fills happened
     created = []
     pending = {}
+    # the first portfolio stays idle (no transfer, no order): the others are validated after it
+    idle_first = npf >= 2 and rng.random() < 0.2
+
+    def active():
+        return created[1:] if (idle_first and len(created) > 1) else created
 
     def add_quotes(tt, missing=None):
         for a in assets:
@@ -139,7 +144,9 @@ def gen_broker_case(rng, stream='valid', n_ops=None, exact=False, fee=None, npf=
                 ops.append(['getacctcash', 'XXX'])
             elif k == 'unk_get':
                 ops.append([rng.choice(['getpfcash', 'getpftmv', 'getpfequity']), 'ZZ'])
-            elif k == 'backupdate' and allow_backwards and t > start:
+            if idle_first and allow_backwards and t > start and rng.random() < 0.5:
+                k = 'backupdate'
+            if k == 'backupdate' and allow_backwards and t > start:
                 tb = t - rng.choice([1, 60, 900, 3600, DAY])
                 add_quotes(tb)
                 ops.append(['update', tb])
@@ -167,7 +174,7 @@ def gen_broker_case(rng, stream='valid', n_ops=None, exact=False, fee=None, npf=
                 master -= Fraction(a)
             ops.append(['wdacct', a])
         elif r < 0.34 and created:
-            p = rng.choice(created)
+            p = rng.choice(active())
             a = float(master) if (stream == 'boundary' and rng.random() < 0.5) else float(master) * rng.random() * 0.6
             if exact:
                 a = math.floor(a * 4) / 4
@@ -177,7 +184,7 @@ def gen_broker_case(rng, stream='valid', n_ops=None, exact=False, fee=None, npf=
                     pfcash[p] += Fraction(a)
             ops.append(['subpf', p, a])
         elif r < 0.40 and created:
-            p = rng.choice(created)
+            p = rng.choice(active())
             if pfcash[p] is not None:
                 a = float(pfcash[p]) if (stream == 'boundary' and rng.random() < 0.5) else float(pfcash[p]) * rng.random() * 0.5
                 if exact:
@@ -190,7 +197,7 @@ def gen_broker_case(rng, stream='valid', n_ops=None, exact=False, fee=None, npf=
                 master = master  # unknown outcome; tracked value becomes a lower bound only
             ops.append(['wdpf', p, a])
         elif r < 0.66 and created:
-            p = rng.choice(created)
+            p = rng.choice(active())
             q = rng.choice([rng.randint(-200, 200), rng.randint(-5, 5), rng.randint(1, 300)])
             if q == 0 and rng.random() < 0.7:
                 q = 1
@@ -460,6 +467,8 @@ def gen_portfolio_case(rng, stream='valid', n_ops=None, exact=False, real_qty=Fa
     nas = rng.randint(1, 3)
     assets = ASSETS[:nas]
     bad_rate = {'valid': 0.05, 'boundary': 0.12, 'malformed': 0.4}[stream]
+    block = (not real_qty) and rng.random() < 0.1
+    blocknet = {}
     start = MON + DAY * rng.randint(0, 6) + rng.choice([0, OPEN])
     cash = dy(rng, 0, 100000, 4) if rng.random() < 0.8 else 0.0
     t = start
@@ -527,6 +536,16 @@ def gen_portfolio_case(rng, stream='valid', n_ops=None, exact=False, real_qty=Fa
                 q = rng.choice([rng.randint(-200, 200), rng.randint(-5, 5), rng.randint(1, 300)])
             if q == 0 and rng.random() < 0.8:
                 q = 1
+            if block:
+                # block-sized positions cut back to a few units (never through zero), and heavy two-way turnover
+                cur = blocknet.get(a, 0)
+                if cur == 0:
+                    q = rng.choice([1, -1]) * rng.choice([100000, 400000, 1000000, 250001])
+                elif abs(cur) > 1000 and rng.random() < 0.6:
+                    q = -(cur - (1 if cur > 0 else -1) * rng.randint(1, 5))
+                else:
+                    q = (1 if cur > 0 else -1) * rng.choice([100000, 999995, 50000])
+                blocknet[a] = cur + q
             if exact:
                 comm = rng.choice([0.0, dy(rng, 0, 50, 8)])
             else:
